@@ -28,6 +28,14 @@ aval = z3.Function("aval", Label, Real)
 anc = z3.Function("anc", Int, Label)               # the label '__a<n>' (constraint ancilla names)
 pow2 = z3.Function("pow2", Int, Int)              # 2 ** i
 slack = z3.Function("slack", Int, Int, Bool, Int)   # slack(a0, n, log): sum_{i<n} w_i * xval(anc(a0+i)),  w_i = 2^i (log) or 1
+# second ghost assignment (over the integer labels of an enumerated model): a(i) in {0,1}, spin form 1 - 2 a(i)
+aint = z3.Function("aint", Label, Int)
+amono = z3.Function("amono", Key, Real)
+asmono = z3.Function("asmono", Key, Real)
+relab = z3.Function("relab", Key, z3.ArraySort(Label, Int), Key)   # tuple(mapping[i] for i in key)
+srt = z3.Function("srt", Key, Key)                                  # tuple(sorted(key)) for integer labels
+nonnegvals = z3.Function("nonnegvals", z3.ArraySort(Label, Bool), z3.ArraySort(Label, Int), Bool)   # mapping values are ints >= 0
+linked = z3.Function("linked", z3.ArraySort(Label, Bool), z3.ArraySort(Label, Int), Bool)   # x == a o mapping on dom
 LSet = z3.ArraySort(Label, Bool)                  # a set of labels as a characteristic array
 memset = z3.Function("memset", Key, LSet)         # the set of members of a key
 CARD = z3.Function("CARD", LSet, Int)             # cardinality of a finite label set
@@ -42,6 +50,7 @@ LEMMAS = {
     "L5-fold-update": "finite-sum update law: sum over d[k:=c] == sum over d - old contribution + new contribution",
     "L6/L7-slack": "slack(a0,n,log) = sum of w_i*a_i over the n ancilla bits is an integer in [0, cap(n)], cap = 2^n - 1 (log) or n (unary); every integer in that range is attained by some setting of the bits (existence is used only at the meta level, see DESIGN 11.7)",
     "L8-num_bits": "num_bits(v, log_trick) = n with cap(n) >= v for v >= 0",
+    "L9-relabel": "if x = a o m on dom(m) and every label of k is mapped then mono_a(relab(k, m)) == mono_x(k) (boolean and spin); relab keeps the length and maps positions pointwise",
     "set-facts": "memset of empty/unit/concat; members(sorted(set k)) = members(k); members(ssq k) subset members(k); |S + {i}| = |S| + [i not in S]",
     "sq-shape": "sq(k) is duplicate-free, sorted, idempotent, no longer than k, members(sq k) subset members(k), identity on length <= 1",
 }
@@ -59,6 +68,13 @@ def empty_key():
     return z3.Empty(Key)
 
 
+def azval(i):
+    return 1 - 2 * aval(i)
+
+
+GHOSTS = {"x": (xval, xint, bmono, smono, zval), "a": (aval, aint, amono, asmono, azval)}
+
+
 class Facts:
     """Collects lemma instances for the terms created during one symbolic execution."""
 
@@ -70,6 +86,8 @@ class Facts:
         self.track_sets = False
         self._concats = []
         self._sqs = []
+        self.ghosts = ["x"]
+        self._labels, self._keys, self._units, self._tails = [], [], [], []
 
     def add(self, f):
         self.facts.append(f)
@@ -80,11 +98,35 @@ class Facts:
         if h in self._seen_labels:
             return i
         self._seen_labels.add(h)
-        xv = xval(i)
-        self.add(z3.Or(xv == 0, xv == 1))
-        self.add(z3.And(xv == z3.ToReal(xint(i)), xint(i) >= 0, xint(i) <= 1))
+        self._labels.append(i)
+        for g in self.ghosts:
+            self._label_facts(g, i)
         self.used.add("L2-range")
         return i
+
+    def _label_facts(self, g, i):
+        val, ival = GHOSTS[g][0], GHOSTS[g][1]
+        xv = val(i)
+        self.add(z3.Or(xv == 0, xv == 1))
+        self.add(z3.And(xv == z3.ToReal(ival(i)), ival(i) >= 0, ival(i) <= 1))
+
+    def enable_ghost(self, g):
+        """activate a second ghost assignment: all facts, retroactively and from now on"""
+        if g in self.ghosts:
+            return
+        self.ghosts.append(g)
+        for i in list(self._labels):
+            self._label_facts(g, i)
+        for k in list(self._keys):
+            self._key_facts(g, k)
+        for a, b, k in list(self._concats):
+            self._concat_facts(g, a, b, k)
+        for i, k in list(self._units):
+            self._unit_facts(g, i, k)
+        for k, t in list(self._tails):
+            self._tail_facts(g, k, t)
+        for spin, k, r in list(self._sqs):
+            self._sq_facts(g, spin, k, r)
 
     def key(self, k):
         """register a key term: range facts, small-length unfoldings"""
@@ -92,42 +134,62 @@ class Facts:
         if h in self._seen_keys:
             return k
         self._seen_keys.add(h)
+        self._keys.append(k)
         n = z3.Length(k)
-        bm, sm = bmono(k), smono(k)
-        self.add(z3.Or(bm == 0, bm == 1))
-        self.add(z3.Or(sm == 1, sm == -1))
-        self.add(z3.Implies(n == 0, z3.And(bm == 1, sm == 1, matvalid(k))))
         k0, k1 = k[0], k[1]
         self.label(k0)
         self.label(k1)
-        self.add(z3.Implies(n == 1, z3.And(k == unit(k0), bm == xval(k0), sm == zval(k0))))
-        self.add(z3.Implies(n == 2, z3.And(k == z3.Concat(unit(k0), unit(k1)), bm == xval(k0) * xval(k1),
-                                           sm == zval(k0) * zval(k1),
+        self.add(z3.Implies(n == 0, matvalid(k)))
+        self.add(z3.Implies(n == 1, k == unit(k0)))
+        self.add(z3.Implies(n == 2, z3.And(k == z3.Concat(unit(k0), unit(k1)),
                                            matvalid(k) == z3.And(matvalid(unit(k0)), matvalid(unit(k1))))))
-        # head/tail unfolding for n >= 1 (used by recursive generators)
+        for g in self.ghosts:
+            self._key_facts(g, k)
         self.used.update(["L1-mono-def", "L2-range"])
         return k
+
+    def _key_facts(self, g, k):
+        val, _, bmf, smf, zv = GHOSTS[g]
+        n = z3.Length(k)
+        bm, sm = bmf(k), smf(k)
+        k0, k1 = k[0], k[1]
+        self.add(z3.Or(bm == 0, bm == 1))
+        self.add(z3.Or(sm == 1, sm == -1))
+        self.add(z3.Implies(n == 0, z3.And(bm == 1, sm == 1)))
+        self.add(z3.Implies(n == 1, z3.And(bm == val(k0), sm == zv(k0))))
+        self.add(z3.Implies(n == 2, z3.And(bm == val(k0) * val(k1), sm == zv(k0) * zv(k1))))
 
     def concat(self, a, b):
         k = z3.Concat(a, b)
         self.key(a)
         self.key(b)
         self.key(k)
-        self.add(bmono(k) == bmono(a) * bmono(b))
-        self.add(smono(k) == smono(a) * smono(b))
+        for g in self.ghosts:
+            self._concat_facts(g, a, b, k)
         self.add(matvalid(k) == z3.And(matvalid(a), matvalid(b)))
         self._concats.append((a, b, k))
         if self.track_sets:
             self.memset_concat(a, b, k)
         return k
 
+    def _concat_facts(self, g, a, b, k):
+        _, _, bmf, smf, _ = GHOSTS[g]
+        self.add(bmf(k) == bmf(a) * bmf(b))
+        self.add(smf(k) == smf(a) * smf(b))
+
     def unit(self, i):
         self.label(i)
         k = unit(i)
         self.key(k)
-        self.add(bmono(k) == xval(i))
-        self.add(smono(k) == zval(i))
+        self._units.append((i, k))
+        for g in self.ghosts:
+            self._unit_facts(g, i, k)
         return k
+
+    def _unit_facts(self, g, i, k):
+        val, _, bmf, smf, zv = GHOSTS[g]
+        self.add(bmf(k) == val(i))
+        self.add(smf(k) == zv(i))
 
     def tail(self, k):
         """k[1:] for len(k) >= 1"""
@@ -136,10 +198,17 @@ class Facts:
         self.key(k)
         self.key(t)
         self.label(k[0])
-        self.add(z3.Implies(n >= 1, z3.And(k == z3.Concat(unit(k[0]), t), bmono(k) == xval(k[0]) * bmono(t),
-                                           smono(k) == zval(k[0]) * smono(t), z3.Length(t) == n - 1,
+        self.add(z3.Implies(n >= 1, z3.And(k == z3.Concat(unit(k[0]), t), z3.Length(t) == n - 1,
                                            matvalid(k) == z3.And(matvalid(unit(k[0])), matvalid(t)))))
+        self._tails.append((k, t))
+        for g in self.ghosts:
+            self._tail_facts(g, k, t)
         return t
+
+    def _tail_facts(self, g, k, t):
+        val, _, bmf, smf, zv = GHOSTS[g]
+        n = z3.Length(k)
+        self.add(z3.Implies(n >= 1, z3.And(bmf(k) == val(k[0]) * bmf(t), smf(k) == zv(k[0]) * smf(t))))
 
     # ---- finite sets of labels (C14 bookkeeping): characteristic arrays, combinatory array logic
     _p, _q = z3.Bool("_p"), z3.Bool("_q")
@@ -227,18 +296,58 @@ class Facts:
         self.add(slack(a0, z3.IntVal(0), log) == 0)
         return nxt
 
+    def _sq_facts(self, g, spin, k, r):
+        _, _, bmf, smf, _ = GHOSTS[g]
+        if spin:
+            self.add(smf(r) == smf(k))
+        else:
+            self.add(bmf(r) == bmf(k))
+
+    # ---- relabelling through a mapping (C04): tuple(mapping[i] for i in key), optionally sorted
+    def relabel(self, k, mdom, mval):
+        """relab(k, m) for a key all of whose labels are mapped; lemma L9 links the two ghosts"""
+        self.enable_ghost("a")
+        self.enable_sets()
+        self.key(k)
+        r = relab(k, mval)
+        self.key(r)
+        ok = self.set_subset(self.memset_of(k), mdom)
+        lk = linked(mdom, mval)
+        n = z3.Length(k)
+        self.add(z3.Length(r) == n)
+        self.add(z3.Implies(z3.And(ok, lk), z3.And(amono(r) == bmono(k), asmono(r) == smono(k))))
+        self.add(z3.Implies(z3.And(ok, nonnegvals(mdom, mval)), matvalid(r)))
+        self.add(z3.Implies(z3.And(n >= 1), r[0] == z3.Select(mval, k[0])))
+        self.add(z3.Implies(z3.And(n >= 2), r[1] == z3.Select(mval, k[1])))
+        self.used.add("L9-relabel")
+        return r, ok
+
+    def sorted_key(self, k):
+        """tuple(sorted(k)) for integer labels: a permutation"""
+        self.key(k)
+        r = srt(k)
+        self.key(r)
+        self.add(z3.Length(r) == z3.Length(k))
+        for g in self.ghosts:
+            _, _, bmf, smf, _ = GHOSTS[g]
+            self.add(z3.And(bmf(r) == bmf(k), smf(r) == smf(k)))
+        self.add(matvalid(r) == matvalid(k))
+        self.add(srt(r) == r)
+        self.add(z3.Implies(z3.Length(k) <= 1, r == k))
+        if self.track_sets:
+            self.add(self.memset_of(r) == self.memset_of(k))
+        self.used.add("L1-mono-def")
+        return r
+
     def sq(self, spin, k):
         """the canonical key of k (boolean: sorted set; spin: sorted odd-multiplicity members)"""
         self.key(k)
         r = ssq(k) if spin else bsq(k)
         self.key(r)
         f = ssq if spin else bsq
-        if spin:
-            self.add(smono(r) == smono(k))
-            self.used.add("L4-spin-parity")
-        else:
-            self.add(bmono(r) == bmono(k))
-            self.used.add("L3-bool-idempotent")
+        for g in self.ghosts:
+            self._sq_facts(g, spin, k, r)
+        self.used.add("L4-spin-parity" if spin else "L3-bool-idempotent")
         self.add(f(r) == r)
         self.add(z3.Length(r) <= z3.Length(k))
         self.add(z3.Implies(z3.Length(k) <= 1, r == k))
